@@ -202,7 +202,7 @@ fn indentation<const N: usize>() {
     let lx = VLexer::from_chars(&chars, span(N as u32), false);
     let options = grass_compiler::Options::default();
     let (out, lx) = sass_op(lx, &options, SassOp::PeekIndentation);
-    assert!(lx.cursor() == 0, "C18c: peeking the indentation moved the cursor");
+    let cursor_after = lx.cursor();
     // reference: indentation (count of leading blanks) of the first line after the newline that is not blank;
     // 0 at end of input; whitespace-only lines do not count
     let mut want: Option<usize> = None;          // None = error expected
@@ -228,6 +228,7 @@ fn indentation<const N: usize>() {
     }
     match out {
         BaseOut::Count(n) => {
+            assert!(cursor_after == 0, "C18c: peeking the indentation moved the cursor");
             assert!(want == Some(n), "C18c: indentation of the next line is wrong (whitespace-only lines must not count)");
             kani::cover!(n >= 2, "indented");
         }
